@@ -197,6 +197,44 @@ def cond_row_scenario():
         pr.destroy()
 
 
+def orphan_script_scenario():
+    """Only the redo process that runs a script is killed (kill -9 of that one pid — what the OOM killer or a `kill` by
+    hand does); its script lives on as an orphan.  The target's lock died with redo, so the next `redo-ifchange y` starts
+    the script again while the orphan is still writing: two executions overlap, and what the orphan appends to `$3` by
+    name afterwards lands in the NEW build's temporary file.  Returns (mixed, info): mixed = the recovery exits 0 and the
+    target holds a line of the orphan."""
+    import signal, subprocess, time as _t
+    pr = Project()
+    try:
+        pr.write("y.do", 'echo "B $$" >>runs.log\necho first >"$3"\n: >started\nsleep 1.2\necho "late $(cat gen)" >>"$3"\necho "E $$" >>runs.log\n')
+        pr.write("gen", "1")
+        p = subprocess.Popen(["redo-ifchange", "y"], cwd=pr.root, env=clean_env(), stdout=subprocess.DEVNULL, stderr=subprocess.DEVNULL, stdin=subprocess.DEVNULL, start_new_session=True)
+        t0 = _t.time()
+        while not os.path.exists(pr.path("started")) and _t.time() - t0 < 20:
+            _t.sleep(0.05)
+        _t.sleep(0.5)
+        try:
+            os.kill(p.pid, signal.SIGKILL)            # this one process only
+        except ProcessLookupError:
+            pass
+        p.wait()
+        pr.write("gen", "2")
+        rc3, out3, err3 = pr.run(["redo-ifchange", "y"], timeout=60)
+        _t.sleep(1.0)                                  # let the orphan end
+        try:
+            os.killpg(p.pid, signal.SIGKILL)
+        except ProcessLookupError:
+            pass
+        got = (pr.read("y") or b"").decode()
+        log = (pr.read("runs.log") or b"").decode().split("\n")
+        kinds = [l.split()[0] for l in log if l]
+        overlap = kinds[:2] == ["B", "B"]
+        info = dict(recovery_rc=rc3, y_after_recovery=got, expected="first\nlate 2\n", executions=log[:6], overlap=overlap)
+        return (rc3 == 0 and got != "first\nlate 2\n"), dict(info, other_problem=(rc3 != 0))
+    finally:
+        pr.destroy()
+
+
 def stale_tmp_scenario():
     """A killed build leaves its `$3` file behind; the next build of the target must start from an empty `$3` also when
     the target is built from another directory than its .do file's and the script appends to `$3`."""
@@ -659,6 +697,20 @@ def run(ctx):
             else:
                 p = write_replay("C10", "cond-row", dict(kind="impl-monitor", info=info, scenario="t.do: if [ -e f ]; then redo-ifchange f; else redo-ifcreate f; fi; (slow); cat f or echo no-f.  build t; rm f; redo-ifchange t killed during the slow part; redo-ifchange t"))
                 viol.append(Violation("C10", p, "kill after a conditional declaration whose file was removed: recovery exits 0 but t=%s (expected no-f)" % info["t_after_recovery"]))
+    # (6) only the redo process is killed, its script lives on
+    if not viol:
+        mixed, info = orphan_script_scenario()
+        cov["distribution"]["orphan_script"] = info
+        kf5 = [k for k in known_findings("C10") if k.get("id") == "orphan-script-overlaps-recovery" and k.get("status") == "known"]
+        if info.get("other_problem"):
+            p = write_replay("C10", "orphan-script", dict(kind="impl-monitor", info=info))
+            viol.append(Violation("C10", p, "kill of only the redo process that runs a script: recovery misbehaves: %r" % info))
+        elif mixed:
+            if kf5:
+                known_hit.append("kill -9 of only the redo process that runs y.do: the script lives on as an orphan, the lock died with redo, the recovery `redo-ifchange y` runs y.do again while the orphan still writes (executions %s); the orphan's late `>>$3` lands in the new build's temporary file: exit 0, y holds %r (fcntl locks are not inherited by the script; no process-group supervision)" % ("overlap" if info["overlap"] else "do not overlap", info["y_after_recovery"]))
+            else:
+                p = write_replay("C10", "orphan-script", dict(kind="impl-monitor", info=info, scenario="y.do: echo first >$3; sleep 1.2; echo late $(cat gen) >>$3.  redo-ifchange y; kill -9 of the redo-ifchange process only, 0.5 s into the script; edit gen; redo-ifchange y at once"))
+                viol.append(Violation("C10", p, "kill of only the redo process: the recovery exits 0 but y holds %r (expected 'first\\nlate 2\\n'); the orphaned script and the new one ran at the same time: %s" % (info["y_after_recovery"], info["overlap"])))
     cov["known_hit"] = known_hit
     cov["rule"] += "; here with kill operations inserted before 45%% of the build commands (whole tree SIGKILLed when a chosen script reaches a chosen step), and a syscall-level kill enumeration (strace inject before the K-th rename/unlink/write/pwrite64/ftruncate/fsync of every process, %d points x {whole command, nested redo-ifchange}) on a 3-target project, %d points on the first command of a fresh project, and kill -9 of only the script's shell at 4 instants x 3 edits x {direct, nested}" % (len(POINTS_THOROUGH if thorough else POINTS_QUICK), len(POINTS_FRESH))
     return cov
